@@ -415,6 +415,13 @@ def gen_c06(rng, idx, tier, faults):
     if not calibrated and len(sched) > 1 and rng.random() < (0.7 if long_run else 0.25):
         # the switching point is re-parameterised between two fits of the chain
         ff_set = (rng.randrange(1, len(sched)), rng.choice([1e-9, 0.05, 0.3, 0.6, 1.0]))
+    reject_at, reject_with = None, None
+    if len(sched) > 1 and rng.random() < 0.1:
+        reject_at = rng.randrange(1, len(sched))
+        if rng.random() < 0.7:
+            reject_with = ("full_fraction", rng.choice([0, -0.25, 1.5, "auto"]), p.get("full_fraction") or rng.choice([0.3, 0.7, 1.0]))
+        else:
+            reject_with = ("n_to_select", rng.choice([0, -3, 1.5, n_from + 7]), forms[reject_at])
     lane_rng = [_seed(rng) for _ in lanes]
     for li, clk in enumerate(lanes):
         name = f"e{li}"
@@ -438,6 +445,12 @@ def gen_c06(rng, idx, tier, faults):
                 rec["seed"] = _seed(rng)
                 ops.append({"op": "MUTATE", "h": "X0", "recipe": rec})
             xcur = "X0c" if (moved_at is not None and si >= moved_at) else "X0"
+            if si > 0 and reject_at == si:
+                # a cold refit rejected for an invalid parameter value, parameter corrected,
+                # then the continuation (see gen_c08)
+                ops.append({"op": "SET", "obj": name, "params": {reject_with[0]: reject_with[1]}})
+                ops.append({"op": "FIT", "obj": name, "X": xcur, "y": yn, "warm": False, "env": {"clock": clk}, "expect_fail": True, "rejected_refit": True})
+                ops.append({"op": "SET", "obj": name, "params": {reject_with[0]: reject_with[2]}})
             ops.append({"op": "FIT", "obj": name, "X": xcur, "y": yn, "warm": si > 0, "env": {"clock": clk}})
             if read_after == si:
                 ops.append({"op": "READ", "obj": name, "method": read_m[0], "kwargs": read_m[1]})
@@ -611,6 +624,28 @@ def gen_c08(rng, idx, tier, faults):
                     cur_thr[0] = cur_thr[0] * rng.uniform(0.05, 0.8)
                     seq.append({"op": "SET", "obj": name, "params": {"score_threshold": {
                         "$unreached": cur_thr[0], "type": q["score_threshold_type"], "at_construction": True}}})
+            if si > 0 and rng.random() < 0.08:
+                # a cold refit that the library REJECTS (an invalid parameter value - no fault),
+                # the parameter is corrected and the search is continued: if the object still
+                # reports its selections it is a fitted selector and the continuation is an
+                # ordinary member of the chain
+                bad = [("n_to_select", rng.choice([0, -3, 1.5, n_from + 7]))]
+                if fam == "voronoi":
+                    bad.append(("full_fraction", rng.choice([0, -0.25, 1.5, "auto"])))
+                    bad.append(("full_fraction", rng.choice([0, -0.25, 1.5, "auto"])))
+                if fam == "cur":
+                    bad.append(("k", 10**6))  # refused by the truncated SVD (PCov-CUR falls back to a dense solver)
+                if fam in ("fps", "pcovfps", "voronoi"):
+                    bad.append(("initialize", rng.choice(["frist", n_from + 5])))
+                bk, bv = rng.choice(bad)
+                good = q.get(bk, {"full_fraction": 0.5, "k": 1, "initialize": 0}.get(bk))
+                if bk == "n_to_select":
+                    good = n_form(rng, s, n_from)
+                if bk == "full_fraction" and good is None:
+                    good = rng.choice([0.3, 0.7, 1.0])  # the calibrated value was written back; choose one
+                seq.append({"op": "SET", "obj": name, "params": {bk: bv}})
+                seq.append({"op": "FIT", "obj": name, "X": xn if not moved else xn + "c", "y": yn, "warm": False, "env": None, "expect_fail": True, "rejected_refit": True})
+                seq.append({"op": "SET", "obj": name, "params": {bk: good}})
             xuse = xn if not moved else xn + "c"
             if si > 0 and not moved and rng.random() < 0.15:
                 xuse = xn + "c"
